@@ -3,7 +3,7 @@ use attosim::NS_PER_MS;
 
 use crate::bodyx::{self, BodyPlan, Observed, ReadMode};
 use crate::gen::{self, G};
-use crate::httpref::{self, is_prefix, ref_decode, short, Framing, RefEnd};
+use crate::httpref::{self, is_prefix, ref_decode, short, ChunkSpec, Framing, RefEnd, Wire};
 use crate::peers::{End, Script};
 use crate::runner::{violation, RunCtx, RunReport, Stats, Verdict};
 
@@ -149,6 +149,9 @@ pub fn scenario(g: &mut G, ctx: &RunCtx) -> RunReport {
     if g.chance(1, 14) {
         return trailer_cut_scenario(g, ctx);
     }
+    if g.chance(1, 20) {
+        return wrapped_size_scenario(g, ctx);
+    }
     let ran = bodyx::run(&d.plan, ctx, false);
     let mut stats = Stats::default();
     stats.absorb(&ran.history);
@@ -165,6 +168,63 @@ pub fn scenario(g: &mut G, ctx: &RunCtx) -> RunReport {
         sched_tape: ran.sched_tape,
         describe: if ctx.describe { d.plan.describe() } else { String::new() },
     }
+}
+
+/// A chunk whose size line announces 2^64 (or a multiple) more than the chunk holds: to arithmetic that wraps,
+/// the number is the true length.  The size is malformed (it does not fit any length a body can have); the body
+/// does not read as cleanly finished, whatever follows.
+fn wrapped_size_scenario(g: &mut G, ctx: &RunCtx) -> RunReport {
+    g.probe("chunk-size-that-wraps-to-the-true-length");
+    let n = g.range(1, 3000) as usize;
+    let payload = g.payload(n);
+    let cut = g.usize_below(n + 1);
+    let lens: Vec<usize> = [cut, n - cut].iter().copied().filter(|l| *l > 0).collect();
+    let bad = g.usize_below(lens.len());
+    let k: &str = *g.pick(&["1", "10", "f", "100000000", "ffffffff"]);
+    let specs: Vec<ChunkSpec> = lens
+        .iter()
+        .enumerate()
+        .map(|(i, l)| ChunkSpec { len: *l, size_line: if i == bad { format!("{}{:016x}", k, l).into_bytes() } else { format!("{:x}", l).into_bytes() }, eol_size: b"\r\n", eol_data: b"\r\n" })
+        .collect();
+    let mut plan = bodyx::plan_from_payload(g, payload.clone(), vec![]);
+    let mut wire = Wire::default();
+    wire.bytes = httpref::encode_head(200, "OK", &[("Transfer-Encoding".to_string(), b"chunked".to_vec())]);
+    wire.head_len = wire.bytes.len();
+    httpref::encode_body(&mut wire, Framing::Chunked, &payload, &specs, b"0", &[]);
+    let (segs, name) = gen::segmentation(g, wire.bytes.len(), &wire.targets.clone());
+    plan.framing = Framing::Chunked;
+    plan.seg_name = name;
+    plan.nsegs = segs.len();
+    plan.script = Script::from_wire(&wire.bytes, &segs, End::Fin);
+    plan.wire = wire;
+    plan.end = End::Fin;
+    plan.read_mode = match g.below(3) {
+        0 => ReadMode::Bytes,
+        _ => {
+            let (v, nm) = gen::read_sizes(g);
+            ReadMode::Sizes(v, nm)
+        }
+    };
+    plan.rereads = g.below(3) as usize;
+    plan.damage = format!("WrappedSize:chunk={}:prefix={}", bad, k);
+    let ran = bodyx::run(&plan, ctx, false);
+    let mut stats = Stats::default();
+    stats.absorb(&ran.history);
+    let verdict = match &ran.observed {
+        None => violation("hang", "run torn down"),
+        Some(Err(p)) => violation(format!("panic:{}", panic_site(p)), p.clone()),
+        Some(Ok(o)) => {
+            let failed = o.send_err.is_some() || o.calls.iter().any(|c| matches!(&c.res, Err(k) if k != "Io(Interrupted)"));
+            if !failed {
+                violation("malformed-chunk-size-read-as-complete", format!("a chunk of {} octets announced as {}{:016x}: the body read as complete ({} octets)", lens[bad], k, lens[bad], o.output.len()))
+            } else if !is_prefix(&o.output, &payload) {
+                violation("prefix-violated:wrapped-size", "bytes handed out are not a prefix of the chunk data sent".to_string())
+            } else {
+                Verdict::Pass
+            }
+        }
+    };
+    RunReport { verdict, shape: format!("wrapped-size/{}/{}", lens.len(), k.len()), nontrivial: true, stats, sched_tape: ran.sched_tape, describe: if ctx.describe { plan.describe() } else { String::new() } }
 }
 
 /// The same damage applied to a response whose body is gzip- or deflate-coded: the statement makes no
